@@ -185,8 +185,8 @@ func churnCases(cycles int, off []string) []Case {
 	}
 	// one pair of histories per helper channel, with only that helper active
 	for _, ch := range channels {
-		if ch.Group != 't' || isOff[ch.Name] {
-			continue
+		if ch.Group != 't' || isOff[ch.Name] || !ch.Identity {
+			continue // only helpers that resolve to a definition can remember one
 		}
 		dk := ch.Kind
 		// one slot: define a, discard, (every other incarnation defines nothing) discard, ...
@@ -327,6 +327,50 @@ func runChunks(e *lib.Env, label string, cases []Case, off []string, tot *totals
 	})
 }
 
+// runConc runs the concurrent phase in a child process and returns the number of helper calls made.
+func runConc(e *lib.Env, off []string, goroutines, iters int) int {
+	offArg := strings.Join(off, ",")
+	if offArg == "" {
+		offArg = "-"
+	}
+	base := filepath.Join(e.Scratch, "conc")
+	r := lib.RunProc(lib.ProcSpec{
+		Argv:    []string{os.Args[0], "conc", base + ".out", base + ".d", fmt.Sprint(goroutines), fmt.Sprint(iters), offArg},
+		Dir:     e.Scratch,
+		Timeout: 30 * time.Minute,
+	})
+	calls, ended := 0, false
+	if f, err := os.Open(base + ".out"); err == nil {
+		sc := bufio.NewScanner(f)
+		sc.Buffer(make([]byte, 4<<20), 4<<20)
+		for sc.Scan() {
+			var rec record
+			if json.Unmarshal(sc.Bytes(), &rec) != nil {
+				continue
+			}
+			switch rec.T {
+			case "V":
+				e.Violation(rec.Key, rec.What, "txt", []byte("# C12 concurrent phase (no history to replay; re-run: .build/c12 conc <out> <dir> "+fmt.Sprint(goroutines)+" "+fmt.Sprint(iters)+" -)\n# "+rec.Key+"\n# "+rec.What+"\n"))
+			case "E":
+				ended = true
+				calls = rec.Steps
+			}
+		}
+		f.Close()
+	}
+	_ = os.RemoveAll(base + ".d")
+	_ = os.Remove(base + ".out")
+	switch {
+	case r.TimedOut:
+		e.Inconclusive("the concurrent phase hit the watchdog")
+	case !ended:
+		site := strings.TrimPrefix(lib.PanicSite(r.Stderr), strings.TrimSuffix(e.Repo, "/")+"/")
+		_, why := lib.GoCrash(r)
+		e.Violation("crash@"+site, fmt.Sprintf("the concurrent phase (%d request VMs hammering the base-defined helpers) died (exit %d %s): %s", goroutines, r.Exit, r.Signal, why), "txt", []byte("# C12 concurrent phase\n"+r.Stderr+"\n"))
+	}
+	return calls
+}
+
 func main() {
 	if len(os.Args) > 1 {
 		switch os.Args[1] {
@@ -335,6 +379,9 @@ func main() {
 			return
 		case "replay":
 			replayMain(os.Args[2:])
+			return
+		case "conc":
+			concMain(os.Args[2:])
 			return
 		}
 	}
@@ -428,6 +475,12 @@ func main() {
 	runChunks(e, "seed", seeded, off, tot, &distinct, (len(seeded)+63)/64+1)
 
 	lap("seeded")
+	// 4. concurrent phase
+	concG, concIters := 8, e.Pick(40000, 300000)
+	concCalls := runConc(e, off, concG, concIters)
+	lap("concurrent")
+	e.Extra("concurrent_request_vms", concG)
+	e.Extra("concurrent_helper_calls", concCalls)
 	e.Extra("phase_wall_s", phase)
 	e.Extra("histories_exhaustive", nEx)
 	e.Extra("exhaustive_max_length", maxLen)
